@@ -58,6 +58,27 @@ type Case struct {
 	// the middle of a message while that many of this case's streams hold complete, undelivered
 	// messages in their buffers. Nothing of it may show in the association under test.
 	Aborted int `json:"aborted,omitempty"`
+	// AnswersToo: every third message is an ANSWER (no R bit), as a client or a relay receives them
+	// interleaved with requests; it reports its stream, and what is built from it goes there, all the same.
+	AnswersToo bool `json:"answers_too,omitempty"`
+	// Wrapped: the association reaches NewConn behind a wrapper type of the application (a
+	// byte-counting MultistreamConn), not as the library's own *SCTPConn.
+	Wrapped bool `json:"wrapped,omitempty"`
+	// Deferred: the reply to a message is written while the NEXT message is being handled (the
+	// last one's at the end of its own handler) - when another stream may be the current one.
+	Deferred bool `json:"deferred,omitempty"`
+}
+
+// countingAssoc is an application's wrapper around an association: everything is forwarded.
+type countingAssoc struct {
+	diam.MultistreamConn
+	written int64
+}
+
+func (w *countingAssoc) WriteStream(b []byte, stream uint) (int, error) {
+	n, err := w.MultistreamConn.WriteStream(b, stream)
+	atomic.AddInt64(&w.written, int64(n))
+	return n, err
 }
 
 const (
@@ -112,7 +133,11 @@ func tagPayload(id uint16, seq, size int) []byte {
 
 func msgHeader(c *Case, id uint16, seq int) refcodec.Header {
 	cmd := requestCmds()[c.Cmd%len(requestCmds())]
-	return refcodec.Header{Version: 1, Flags: 0x80, Code: cmd.Code, App: cmd.App,
+	flags := uint8(0x80)
+	if c.AnswersToo && cmd.HasAns && (int(id)+seq)%3 == 1 {
+		flags = 0
+	}
+	return refcodec.Header{Version: 1, Flags: flags, Code: cmd.Code, App: cmd.App,
 		HopByHop: 0x01000000 | uint32(id)<<8 | uint32(seq), EndToEnd: 0x5a000000 | uint32(seq)<<16 | uint32(id)}
 }
 
@@ -309,6 +334,8 @@ func runCase(c Case) *ev.Failure {
 		got  []delivery
 		kept []*diam.Message // every delivered message, looked at again when the association is over
 		werr []string
+		// the reply that waits for the next message (Deferred)
+		pending func() error
 	)
 	mux := diam.NewServeMux()
 	mux.HandleFunc("ALL", func(conn diam.Conn, m *diam.Message) {
@@ -339,12 +366,32 @@ func runCase(c Case) *ev.Failure {
 		}
 		a.NewAVP(tagCode, tagFlags, 0, datatype.OctetString(short))
 		var err error
-		if m.Header.EndToEndID&4 != 0 {
-			// written to the association itself (a MultistreamWriter that is not the handler's
-			// Conn), as an application that runs its own read loop on the association does
-			_, err = a.WriteTo(conn.Connection())
+		write := func() error {
+			if m.Header.EndToEndID&4 != 0 {
+				// written to the association itself (a MultistreamWriter that is not the handler's
+				// Conn), as an application that runs its own read loop on the association does
+				_, e := a.WriteTo(conn.Connection())
+				return e
+			}
+			_, e := a.WriteTo(conn)
+			return e
+		}
+		if c.Deferred {
+			mu.Lock()
+			prev := pending
+			pending = write
+			last := len(got)+1 == c.nmsgs()
+			mu.Unlock()
+			if prev != nil {
+				err = prev()
+			}
+			if last {
+				if e := write(); err == nil {
+					err = e
+				}
+			}
 		} else {
-			_, err = a.WriteTo(conn)
+			err = write()
 		}
 		mu.Lock()
 		got = append(got, d)
@@ -379,7 +426,11 @@ func runCase(c Case) *ev.Failure {
 		be.Feed(all...)
 		be.FeedEOF()
 	}
-	if _, err := diam.NewConn(diam.NewVerifSCTPConn(sh), "", mux, dict.Default); err != nil {
+	var assoc net.Conn = diam.NewVerifSCTPConn(sh)
+	if c.Wrapped {
+		assoc = &countingAssoc{MultistreamConn: assoc.(diam.MultistreamConn)}
+	}
+	if _, err := diam.NewConn(assoc, "", mux, dict.Default); err != nil {
 		be.Close()
 		return ev.Failf("harness-conn", "NewConn: %v", err)
 	}
@@ -625,6 +676,15 @@ func classify(c Case) (bool, []string) {
 	if c.Aborted > 0 {
 		cl["after-an-association-that-died-mid-message"] = true
 	}
+	if c.AnswersToo {
+		cl["answers-among-the-requests"] = true
+	}
+	if c.Wrapped {
+		cl["association-behind-an-application-wrapper"] = true
+	}
+	if c.Deferred {
+		cl["reply-written-while-the-next-message-is-handled"] = true
+	}
 	// merged position of every chunk of every stream
 	pos := make([][]int, len(c.Streams))
 	for n, k := range c.Merge {
@@ -869,6 +929,9 @@ func genCase(t *rapid.T) Case {
 	if rapid.IntRange(0, 5).Draw(t, "after-an-aborted-association") == 0 {
 		c.Aborted = rapid.IntRange(1, 6).Draw(t, "aborted-streams")
 	}
+	c.AnswersToo = rapid.Bool().Draw(t, "answers-too")
+	c.Wrapped = rapid.IntRange(0, 2).Draw(t, "wrapped") == 0
+	c.Deferred = rapid.IntRange(0, 2).Draw(t, "deferred") == 0
 	var n int
 	switch k := rapid.IntRange(0, 9).Draw(t, "streams-class"); {
 	case k < 1:
@@ -1067,7 +1130,7 @@ func enumerateSmall(yield func(Case) bool) {
 						ids := idPairs[n%len(idPairs)]
 						n++
 						c := Case{Streams: []StreamPlan{{ID: ids[0], Sizes: a.sizes, Chunks: ca}, {ID: ids[1], Sizes: b.sizes, Chunks: cb}},
-							Merge: m, Cmd: n % 7, Late: n%16 == 0}
+							Merge: m, Cmd: n % 7, Late: n%16 == 0, AnswersToo: n%3 == 0, Wrapped: n%5 == 0, Deferred: n%4 == 1}
 						if !yield(c) {
 							return
 						}
@@ -1087,6 +1150,7 @@ const rule = "scenario = 1..16 streams (ids 0..15), per stream 0..6 request mess
 	"(MessageStream, header, payload) and replies with Answer(2001)+label via WriteTo; half of the messages are first forwarded with WriteToStream to another writer and stream, as a relay does, and half of the replies are written to the association itself (conn.Connection()) instead of the handler's Conn. Demanded: every delivery is byte-for-byte a sent message, reported on its origin stream; per stream all messages, " +
 	"once, in order; exactly one reply per message recorded by the backend on the origin stream with the Diameter PPID; the loop closes the transport after EOF. " +
 	"1 in 6 cases another association of the same process has died of a read error in mid-message just before, with complete messages still buffered for 1..6 of the case's stream numbers: nothing of it may show. " +
+	"In half of the cases every third message is an answer (no R bit); in a third the association reaches NewConn behind an application's wrapper type (a counting MultistreamConn); in a third each reply is written while the NEXT message is being handled. " +
 	"non-trivial = >= 2 streams carrying messages and >= 1 message between whose first and last chunk a chunk of another stream arrives"
 
 var prop = ev.Register(&ev.Prop[Case]{
